@@ -729,7 +729,8 @@ func c12Judge(run *c12Run, st *c12Stats) (viol [][2]string, unknown bool) {
 	frozen := map[int]int{} // proc → seq of the pending "freeze"
 	lastLockSave := map[int]string{}
 	var hist []porcupine.Operation
-	owner := map[string]int{} // lock file name → creating process
+	owner := map[string]int{}   // lock file name → creating process
+	savedAt := map[string]int{} // lock file name → event at which it was saved
 	lastProc := 0
 	// pass 1: hold intervals, history, counters
 	for _, e := range log {
@@ -744,6 +745,7 @@ func c12Judge(run *c12Run, st *c12Stats) (viol [][2]string, unknown bool) {
 			lastProc = e.Proc
 			if e.H.Type == backend.LockFile && e.Err == "" && e.Kind == kit.OpSave {
 				owner[e.H.Name] = e.Proc
+				savedAt[e.H.Name] = e.Seq
 				lastLockSave[e.Proc] = e.H.Name
 				if e.Role == "refresh" {
 					st.refreshes++
@@ -871,7 +873,10 @@ func c12Judge(run *c12Run, st *c12Stats) (viol [][2]string, unknown bool) {
 			}
 			continue
 		}
-		if h := holding(q, e.Seq); h != nil {
+		// only lock files of the CURRENT hold count (saved since its acquisition began): a file left
+		// over from an earlier lock of the same process (its Unlock gives up after
+		// unlockCancelDelay when the backend is slow) is an ordinary stale file
+		if h := holding(q, e.Seq); h != nil && savedAt[e.H.Name] > h.CallSeq {
 			viol = append(viol, [2]string{key("live-lock-file-removed-by-other-process", h, nil),
 				fmt.Sprintf("process %d removed lock file %s of process %d at event %d while that process holds a lock (events [%d,%s], lock file was %v old when the acquisition completed)", e.Proc, e.H.Name[:10], q, e.Seq, h.Start, c12End(h.End), h.AcqAge)})
 		} else {
